@@ -181,8 +181,10 @@ def check(ctx, res) -> None:
     # from the old parameter list (a copy that is then overwritten by index), never from the caller's `new_order`
     ro = idx.need_func("rope.refactor.change_signature.ArgumentReorderer.change_definition_info")
     dparam = param_names(ro.node)[1] if len(param_names(ro.node)) > 1 else None
+    from .common import inline_private_calls
+    ro_node = inline_private_calls(idx, ro)  # steps moved into private helpers are read in place
     old_alias = set()
-    for x in walk_local(ro.node):
+    for x in walk_local(ro_node):
         if isinstance(x, ast.Assign) and isinstance(x.targets[0], ast.Name) and isinstance(x.value, ast.Attribute) \
                 and x.value.attr == "args_with_defaults" and isinstance(x.value.value, ast.Name) and x.value.value.id == dparam:
             old_alias.add(x.targets[0].id)
@@ -212,7 +214,7 @@ def check(ctx, res) -> None:
             return length_source(e.args[0])
         return None
 
-    written = [x for x in walk_local(ro.node) if isinstance(x, ast.Assign) and any(
+    written = [x for x in walk_local(ro_node) if isinstance(x, ast.Assign) and any(
         isinstance(t, ast.Attribute) and t.attr == "args_with_defaults" and isinstance(t.value, ast.Name) and t.value.id == dparam for t in x.targets)]
     if not written:
         raise AnalysisError("anchor=ArgumentReorderer.change_definition_info: write-back of args_with_defaults not found")
@@ -220,14 +222,14 @@ def check(ctx, res) -> None:
         v = w_.value
         src = length_source(v)
         if src is None and isinstance(v, ast.Name):
-            defs = [x.value for x in walk_local(ro.node) if isinstance(x, ast.Assign) and isinstance(x.targets[0], ast.Name) and x.targets[0].id == v.id]
+            defs = [x.value for x in walk_local(ro_node) if isinstance(x, ast.Assign) and isinstance(x.targets[0], ast.Name) and x.targets[0].id == v.id]
             srcs = {length_source(d) for d in defs}
             src = "order" if "order" in srcs else ("old" if srcs == {"old"} else None)
             # appends/deletes on the list change its length too
             if src == "old" and any(isinstance(c.func, ast.Attribute) and isinstance(c.func.value, ast.Name) and c.func.value.id == v.id
-                                    and c.func.attr in ("append", "pop", "remove", "insert", "extend", "clear") for c in calls_in(ro.node)):
+                                    and c.func.attr in ("append", "pop", "remove", "insert", "extend", "clear") for c in calls_in(ro_node)):
                 src = None
-        guarded = any(isinstance(x, (ast.Assert, ast.If)) and "len(" in ast.unparse(x.test) and "new_order" in ast.unparse(x.test) for x in walk_local(ro.node))
+        guarded = any(isinstance(x, (ast.Assert, ast.If)) and "len(" in ast.unparse(x.test) and "new_order" in ast.unparse(x.test) for x in walk_local(ro_node))
         if src is None:
             res.undecided("R06.6", "ArgumentReorderer|length", f"{ro.unit.rel}:{w_.lineno}", "how the reordered list gets its length was not recognised")
         else:
@@ -243,9 +245,11 @@ def check(ctx, res) -> None:
     cc = idx.need_func("rope.refactor.change_signature.ChangeSignature._change_calls")
     cfg = CFG(cc.node)
     finder_names = []
-    for c in calls_in(cc.node):
-        if call_name(c) == "create_finder" and len(c.args) >= 2:
-            finder_names.append(ast.unparse(c.args[1]))
+    from .common import with_private_helpers
+    for g in with_private_helpers(idx, cc):  # the finders may be built in a private helper of _change_calls
+        for c in calls_in(g.node):
+            if call_name(c) == "create_finder" and len(c.args) >= 2:
+                finder_names.append(ast.unparse(c.args[1]))
     loops = [n for n in cfg.nodes if n.kind == "loop" and isinstance(n.ast, ast.For)
              and any(call_name(x) == "get_changed_module" for x in calls_in(n.ast))]
     if not loops or not finder_names:
